@@ -3,11 +3,12 @@
    VALIDATION of the tables (computation), in the style of Jourdan–Pottier–Leroy's LR validator.
 
    Invariant: the state stack is a path of the automaton from state 0, and the value pushed with each
-   transition has the kind of the transition's symbol (`kind_okb`).  The validator `tables_valid`
-   checks, for every state and lookahead, by bounded backward search over predecessor states
-   (`path_check`), that a prescribed reduction finds its right-hand side on the stack and a goto at
-   its base, that `Accept` only happens on $end in a state entered by `expression`, and that $end is
-   never shifted.  `all_actions_ok` shows once per production that the semantic action accepts
+   transition has the kind of the transition's symbol (`kind_okb`).  The validator (`cell_ok`, run
+   over every state and lookahead) checks, by bounded backward search over predecessor states
+   (`path_check`), that a prescribed reduction names an existing production, finds its right-hand
+   side on the stack and a goto at its base, that `Accept` only happens on $end in a state entered
+   by `expression`, and that $end is never shifted; two more facts say that state 0 has no incoming
+   transition and that all transitions into a state carry the same symbol.  `all_actions_ok` shows once per production that the semantic action accepts
    arguments of the kinds of its right-hand side and returns a value of the kind of its left-hand
    side.  Everything about the tables is discharged by vm_compute on gen/GenParser.v, so a table or
    grammar change re-checks (or breaks) it. *)
